@@ -77,19 +77,21 @@ pub fn braille_mathml(mathml: Element, nav_node_id: &str) -> Result<(String, usi
         let end = braille.rfind(is_highlighted);
         if start.is_none() {
             assert!(end.is_none());
-            let end = braille.len();
-            return (braille, 0, end/3);
+            let end = braille.chars().count();
+            return (braille, 0, end);
         };
 
         let end = end.unwrap();         // always exists if start exists
         let start = highlight_first_indicator(&mut braille, braille_code, start.unwrap(), end);
 
+        // the positions handed back are counted in characters (cells): a character that is passed through need not be three bytes long
+        let (start_position, end_position) = (braille[..start].chars().count(), braille[..end].chars().count());
         if start == end {
-            return (braille, start/3, end/3);
+            return (braille, start_position, end_position);
         }
 
         if !fill_range {
-            return (braille, start/3, end/3);
+            return (braille, start_position, end_position);
         }
 
         let mut result = String::with_capacity(braille.len());
@@ -99,7 +101,7 @@ pub fn braille_mathml(mathml: Element, nav_node_id: &str) -> Result<(String, usi
             result.push( highlight(ch) );
         };
         result.push_str(&braille[end..]);
-        return (result, start/3, end/3);
+        return (result, start_position, end_position);
 
         /// Return the byte index of the first place to highlight
         fn highlight_first_indicator(braille: &mut String, braille_code: &str, start_index: usize, end_index: usize) -> usize {
@@ -306,7 +308,7 @@ pub fn get_navigation_node_from_braille_position(mathml: Element, position: usiz
         N_PROBES.with(|n| {*n.borrow_mut() += 1});
         let (braille, start, end) = braille_mathml(mathml, node_id)?;
         // debug!("find_navigation_node ({}, id={}): start/end={}/{};  target_position={}", name(&node), node_id, start, end, target_position);
-        if is_leaf(node) && start == 0 && end == braille.len()/3 {
+        if is_leaf(node) && start == 0 && end == braille.chars().count() {
             // nothing highlighted -- probably invisible char not represented in braille -- continue looking to the right
             return Ok( SearchState {
                 status: SearchStatus::LookRight,
